@@ -40,7 +40,11 @@ class Session:
         self.clients = {}
         self.next_id = 1
         self.reply_timeout = reply_timeout
+        self.pubsub_timeout = 0.5
         self.crashed = False
+        self.subscribed = set()
+        self.in_multi = {}
+        self.deferred = []
 
     def reset(self):
         self.trace.emit({'k': 'reset'})
@@ -59,28 +63,140 @@ class Session:
         self.trace.emit({'k': 'open', 'c': cid})
         return cid
 
+    def wait_loop(self, n=3, timeout=3.0):
+        """Wait until the server's event loop has started n more iterations (hook H2)."""
+        ctl = self.server.ctl
+        if ctl is None or not self.server.alive():
+            return False
+        try:
+            start = int(ctl.cmd('ITER'))
+            deadline = time.monotonic() + timeout
+            while time.monotonic() < deadline:
+                if int(ctl.cmd('ITER')) >= start + n:
+                    return True
+                time.sleep(0.0005)
+        except (OSError, ValueError):
+            pass
+        return False
+
     def close(self, cid):
         self.clients[cid].close()
         del self.clients[cid]
         self.trace.emit({'k': 'close', 'c': cid})
+        if self.wait_loop(3):
+            self.trace.emit({'k': 'gone', 'c': cid})
 
     def close_all(self):
         for cid in list(self.clients):
             self.close(cid)
 
+    # -- pub/sub aware reading ---------------------------------------------
+    @staticmethod
+    def is_push(r):
+        return (r[0] == 'arr' and len(r[1]) >= 3 and r[1][0][0] == 'bulk'
+                and r[1][0][1] in (b'message', b'pmessage'))
+
+    def poll(self, cid, quiet=0.004):
+        """Read unsolicited frames from cid until the socket stays quiet; they become push events."""
+        cl = self.clients.get(cid)
+        n = 0
+        while cl is not None:
+            r = cl.recv(quiet)
+            if r[0] in ('none', 'closed'):
+                break
+            self.trace.emit({'k': 'push', 'c': cid, 'frame': resp.to_json(r)})
+            n += 1
+        return n
+
+    def poll_all(self, quiet=0.004):
+        for cid in sorted(self.subscribed):
+            if cid in self.clients:
+                self.poll(cid, quiet)
+
+    def quiesce(self, wait=0.15):
+        self.poll_all(wait)
+        self.trace.emit({'k': 'quiesce'})
+
+    def _recv_reply(self, cid, cl, timeout):
+        """One reply frame for a request of cid; push frames read on the way are emitted first."""
+        while True:
+            r = cl.recv(timeout)
+            if cid in self.subscribed and self.is_push(r):
+                # read before the reply (e.g. a client publishing to itself): recorded after the request
+                self.deferred.append({'k': 'push', 'c': cid, 'frame': resp.to_json(r)})
+                continue
+            return r
+
     def cmd(self, cid, argv, timeout=None):
         cl = self.clients[cid]
+        name = argv[0].upper() if argv else b''
+        if name in (b'SUBSCRIBE', b'PSUBSCRIBE', b'UNSUBSCRIBE', b'PUNSUBSCRIBE') and not self.in_multi.get(cid):
+            return self.cmd_pubsub(cid, argv, name)
+        if name == b'MULTI':
+            self.in_multi[cid] = True
+        elif name in (b'EXEC', b'DISCARD'):
+            self.in_multi[cid] = False
         t0 = self.trace.now()
-        r = cl.call(argv, timeout if timeout is not None else self.reply_timeout)
+        if not cl.send(argv):
+            r = ('closed',)
+        else:
+            r = self._recv_reply(cid, cl, timeout if timeout is not None else self.reply_timeout)
         t1 = self.trace.now() + 1
         self.trace.emit({'k': 'cmd', 'c': cid, 'argv': [jb(a) for a in argv], 'r': resp.to_json(r),
                          't0': t0, 't1': t1})
+        for ev in self.deferred:
+            self.trace.emit(ev)
+        self.deferred = []
         if r[0] == 'closed':
             # the server dropped the connection: record it so the spec forgets the connection
             self.trace.emit({'k': 'dropped', 'c': cid})
             cl.close()
             del self.clients[cid]
         return r
+
+    def cmd_pubsub(self, cid, argv, name):
+        """(P)(UN)SUBSCRIBE are answered by one frame per name (or per current subscription)."""
+        cl = self.clients[cid]
+        self.subscribed.add(cid)
+        t0 = self.trace.now()
+        frames = []
+        closed = False
+        if not cl.send(argv):
+            closed = True
+        else:
+            want = len(argv) - 1 if len(argv) > 1 else None
+            while True:
+                first = not frames
+                r = cl.recv(self.pubsub_timeout if (first or want) else 0.03)
+                if r[0] == 'closed':
+                    closed = True
+                    break
+                if r[0] == 'none':
+                    break
+                if self.is_push(r):
+                    self.deferred.append({'k': 'push', 'c': cid, 'frame': resp.to_json(r)})
+                    continue
+                frames.append(r)
+                if r[0] == 'err':
+                    break
+                if want is not None and len(frames) >= want:
+                    break
+        t1 = self.trace.now() + 1
+        if len(frames) == 1 and frames[0][0] == 'err':
+            rj = resp.to_json(frames[0])
+        elif not frames:
+            rj = {'t': 'closed'} if closed else {'t': 'none'}
+        else:
+            rj = {'t': 'multi', 'v': [resp.to_json(f) for f in frames]}
+        self.trace.emit({'k': 'cmd', 'c': cid, 'argv': [jb(a) for a in argv], 'r': rj, 't0': t0, 't1': t1})
+        for ev in self.deferred:
+            self.trace.emit(ev)
+        self.deferred = []
+        if closed:
+            self.trace.emit({'k': 'dropped', 'c': cid})
+            cl.close()
+            del self.clients[cid]
+        return frames
 
     def note(self, text):
         self.trace.emit({'k': 'note', 'text': text})
